@@ -440,6 +440,8 @@ func decodeCompositParams(name string, value string, pattern string, names []str
 		} else {
 			values = append(values, "")
 			value = ""
+			// nothing is left to split: keep the slice expression below within bounds
+			vright = -len(toskip)
 		}
 		return decodeCompositParams(pattern[pleft+1:pright], value[vright+len(toskip):], pattern[pright+1:], names, values)
 	}
